@@ -32,6 +32,7 @@ import (
 //	killR/killS                 : the process owning that end is killed at quiescent point K: its own stream calls
 //	                              fail, the peer reads EOF after draining the queue and the peer's sends fail
 //	break                       : the stream is torn down at quiescent point K
+//	breakC                      : the same by cancelling the stream's own context: its calls fail with context.Canceled
 //	walk                        : the source walk fails at entry K
 //	read                        : reading source file number K fails after J bytes
 //	hasher/notify               : the K-th ContentHasher / NotifyHashed call fails
@@ -300,7 +301,7 @@ func xferBody(sc Scn, src fsmodel.Tree, srcDir, destDir string, res *XferRes) Bo
 		for {
 			if sc.Fault.Kind != "" && s.N() == sc.Fault.K {
 				switch sc.Fault.Kind {
-				case "cancelS", "cancelR", "cancelB", "break", "killR", "killS":
+				case "cancelS", "cancelR", "cancelB", "break", "breakC", "killR", "killS":
 					synctest.Wait()
 					res.FaultHit = true
 					if sc.Fault.Kind == "killR" {
@@ -317,6 +318,9 @@ func xferBody(sc Scn, src fsmodel.Tree, srcDir, destDir string, res *XferRes) Bo
 					}
 					if sc.Fault.Kind == "break" {
 						link.Torn = true
+					}
+					if sc.Fault.Kind == "breakC" {
+						link.Torn, link.TornByCancel = true, true
 					}
 				}
 			}
